@@ -28,6 +28,8 @@ package centrifuge
 // A second entry point, TestVerifC38Queue, drives publicationQueue itself:
 //   q cap=N ops=a,a,i,r,…   (a = Add publication, i = Add insufficient-state marker, r = Remove)
 //   → per op `a:cnt/cap/size` | `r:ID|I<ID>|-:cnt/cap/size`  (ids count from 1 in Add order, len(Data)=id%5+1)
+// top:N sets the broker's stream top (a lost publication); tick:I runs subscriber I's periodic tick at T (its own
+// gate `now - positionCheckTime > ClientChannelPositionCheckDelay` = 40 s and the medium's shared gate apply).
 // Events with the same T form a burst; mode=each settles (synctest.Wait) after every event, mode=burst
 // only after the whole burst.  Before a burst at T everything due at ≤ T has run.
 // Output: `sub=ok|err:… bc=o,o,… s0=K:o+o+…:end …` where bc is the sequence handed by the medium to
@@ -225,6 +227,10 @@ func verifC38Scenario(line string) (res string) {
 		}
 	}()
 	kv := verifC38KV(line)
+	// second-aligned scenario start: the position-check gates work on time.Now().Unix()
+	if ns := time.Now().Nanosecond(); ns != 0 {
+		time.Sleep(time.Second - time.Duration(ns))
+	}
 	atoi := func(k string) int {
 		n, _ := strconv.Atoi(kv[k])
 		return n
@@ -387,6 +393,25 @@ func verifC38Scenario(line string) (res string) {
 				break
 			}
 			cur.broadcastInsufficientState()
+		case "top":
+			// the broker's stream top moves (a publication that never reached this node)
+			if len(parts) < 3 {
+				return "bad-op"
+			}
+			t, _ := strconv.ParseUint(parts[2], 10, 64)
+			broker.mu.Lock()
+			broker.top = t
+			broker.mu.Unlock()
+		case "tick":
+			// subscriber I's periodic tick, now
+			if len(parts) < 3 {
+				return "bad-op"
+			}
+			i, _ := strconv.Atoi(parts[2])
+			if i < 0 || i >= len(clients) {
+				return "bad-op"
+			}
+			clients[i].updatePresence()
 		case "check":
 			if len(parts) < 4 {
 				return "bad-op"
